@@ -24,6 +24,8 @@ THEOREMS = [
     "subquery_sort_irrelevant", "sort_is_permutation", "sort_order_irrelevant",
     "query_exact_partial", "query_exact_full_fails",
     "seek_sound", "seek_eq_scan_typed", "seekable_needs_string_symbol",
+    "cursor_state_per_scan", "cursor_state_allocating", "code_policy_fresh", "skeleton_is_evalBool",
+    "self_subquery_exact", "shared_cache_differs",
 ]
 
 
@@ -129,8 +131,13 @@ RULE = ("non-trivial = well-typed filter accepted by ast.Parse whose answer sepa
         "dangling references, half of the parent entities with child data; queries through every store; filters "
         "type-directed (1 in 6 atoms / sort fields ignores the typing rules), nesting depth <= 3 (quick) / 5 (thorough), one "
         "third single atoms, mixed and/or always parenthesised; plus the enumerated operator x left-type x literal-type x "
-        "left-operand-shape product of single atoms, one atom per reachable symbol of every store, and a stream that "
-        "compares seekable sets with the rendering of one of their elements")
+        "left-operand-shape product of single atoms, one atom per reachable symbol of every store, a stream that "
+        "compares seekable sets with the rendering of one of their elements, and a stream over the self-referential link "
+        "sets (things.peers -> things, owners.subs -> owners, kidthings.pals -> kidthings; data: the boss tree of depth 2, "
+        "random forests with back edges and self-membership, chains closed to a cycle) whose filters use the set symbol a "
+        "sub-query iterates again inside its predicate (isEmpty / count / anyOf / allOf, dotted s.s, s.s.s and s.s.field), "
+        "nested two deep, twice at one level in both orders, over s.s, and through a pair of link sets that leads back to "
+        "the scanned type")
 
 
 def run(ctx, replay_cases=None):
@@ -142,6 +149,7 @@ def run(ctx, replay_cases=None):
         "the ANTLR parser hands the listener the tree the generator prints (mixed and/or always parenthesised; grouping of unparenthesised connectives is C12, syntax errors C10)",
         "a child store's data bucket does not overlap a map symbol's bucket path of its parent; MapSymbol wraps non-set symbols; child stores are one level deep (the model abstracts the nesting of child data into per-store rows: ChildRowsNested)",
         "predicate-less sub-queries (`from s where limit 2`), which the grammar admits and the listener rejects, are outside the model (parser/listener: C10/C12)",
+        "the row-cursor allocation of the cursor machine (Filter/CursorsAlloc.lean) is the one extract/c01cursors.go reads off five syntactic shapes of boltz/query_cursor.go, query_scanners.go, store_query.go (Generated/C01Cursors.lean; `code_policy_fresh` fails to check when a shape changes); the machine covers the scan skeleton `skOf` of a typed filter (set functions in non-comparison operand positions stay atoms), and identifies a runtime set-symbol object with (row cursor, symbol name)",
     ]
     with common.Lock():
         common.build_tools(ctx)
